@@ -665,3 +665,121 @@ var out []interface{}
 		t.Errorf("renamed onto a name in use: %s", got)
 	}
 }
+
+// ---- rules added for the fourth set of harmless refactorings (R49 … R60): the runtime closures of
+// jsonpath.peg.go, syntaxErr, getSortedKeys, Retrieve. Every positive case has "evil twins" that
+// differ from it in exactly the point a side condition checks.
+func TestNormalizeRules4(t *testing.T) {
+	type pcase struct {
+		normCase
+		prof normProfile
+	}
+	def := normProfile{}
+	join := normProfile{joinDefs: true, keepIntShort: true}
+	cases := []pcase{
+		// ruleReturnFlip: a variable of type error is tested `!= nil` first
+		{normCase{"error nil flip", `func h() (int, error)
+func f() (int, error) { v, err := h(); if err == nil { return v + 1, nil }; return 0, err }`, `if err != nil { return 0, err } return v + 1, nil`, `== nil`}, def},
+		{normCase{"error nil flip, nil on the left", `func f(err error) int { if nil == err { return 1 }; return 2 }`, `if nil != err { return 2 } return 1`, ``}, def},
+		{normCase{"error != nil kept", `func f(err error) int { if err != nil { return 1 }; return 2 }`, `if err != nil { return 1 } return 2`, ``}, def},
+		{normCase{"pointer nil test kept", `func f(p *int) int { if p == nil { return 1 }; return 2 }`, `if p == nil { return 1 } return 2`, ``}, def},
+		{normCase{"named error type kept", `type E struct{}
+func (*E) Error() string { return "" }
+func f(e *E) int { if e == nil { return 1 }; return 2 }`, `if e == nil { return 1 }`, ``}, def},
+		{normCase{"error nil test with statements in between kept", `var g int
+func f(err error) int { if err == nil { return 1 }; g++; return 2 }`, `if err == nil { return 1 } g++`, ``}, def},
+		// ruleLoopBreakFlip
+		{normCase{"loop break flip", `func f(s string, pos int) int { off, n := len(s), 0; for i := range s { if n != pos { n++; continue }; off = i; break }; return off }`,
+			`if n == pos { off = i break } n++ }`, `continue`}, def},
+		{normCase{"loop break flip with return", `var g int
+func f(xs []int) int { for i := range xs { if xs[i] > 0 { g++; continue }; return i }; return -1 }`, `if xs[i] <= 0 { return i } g++ }`, `continue`}, def},
+		{normCase{"loop break flip: rest may fall through kept", `var g int
+func f(xs []int) { for i := range xs { if xs[i] > 0 { g++; continue }; g-- } }`, `if xs[i] > 0 { g++ continue } g--`, ``}, def},
+		{normCase{"loop break flip: rest ends in continue kept", `var g int
+func f(xs []int) { for i := range xs { if xs[i] > 0 { g++; continue }; g--; continue } }`, `if xs[i] > 0 { g++ continue }`, ``}, def},
+		{normCase{"loop break flip: labeled break kept", `var g int
+func f(xs []int) { out: for { for i := range xs { if xs[i] > 0 { g++; continue }; g--; break out } } }`, `if xs[i] > 0 { g++ continue }`, ``}, def},
+		{normCase{"loop break flip: not the end of a loop body kept", `var g int
+func f(xs []int) int { for i := range xs { { if xs[i] > 0 { g++; continue }; g--; break }; g = 7 }; return g }`, `if xs[i] > 0 { g++ continue }`, ``}, def},
+		{normCase{"loop break flip: a declaration that would clash kept", `var g int
+func f(xs []int) { for i := range xs { x := 1; g = x; if xs[i] > 0 { x := 2; g = x; continue }; break } }`, `if xs[i] > 0 { x := 2`, ``}, def},
+		{normCase{"loop break flip: init statement kept", `var g int
+func h() bool
+func f() { for { if c := h(); c { g++; continue }; break } }`, `if c := h(); c { g++ continue }`, ``}, def},
+		// ruleHeaderRead
+		{normCase{"header read", `func f(p *[]string, m map[string]int, n int) { *p = (*p)[:n]; keys := *p; i := 0; for k := range m { keys[i] = k; i++ } }`,
+			`*p = (*p)[:n] var i int for k := range m { (*p)[i] = k`, `keys`}, def},
+		{normCase{"header read: use after a call kept", `func h()
+func f(p *[]string, n int) { *p = (*p)[:n]; keys := *p; h(); keys[0] = "x" }`, `keys := *p`, ``}, def},
+		{normCase{"header read: header stored in the loop kept", `func f(p *[]string, m map[string]int, n int) { *p = (*p)[:n]; keys := *p; i := 0; for k := range m { keys[i] = k; i++; *p = nil } }`, `keys := *p`, ``}, def},
+		{normCase{"header read: no store before the read kept (p may be nil)", `var g int
+func f(p *[]string, m map[string]int) { g++; keys := *p; for k := range m { keys[0] = k } }`, `keys := *p`, ``}, def},
+		{normCase{"header read: store through another pointer kept", `func f(p, q *[]string, n int) { *q = (*p)[:n]; keys := *p; *q = nil; keys[0] = "x" }`, `keys := *p`, ``}, def},
+		{normCase{"header read: local reassigned kept", `func f(p *[]string, n int) { *p = (*p)[:n]; keys := *p; keys = keys[1:]; keys[0] = "x" }`, `keys := *p`, ``}, def},
+		{normCase{"header read: pointer reassigned kept", `func f(p, q *[]string, n int) { *p = (*p)[:n]; keys := *p; p = q; keys[0] = "x"; _ = p }`, `keys := *p`, ``}, def},
+		{normCase{"header read: struct behind the pointer kept", `type T struct{ a int }
+var g int
+func f(p *T) { *p = T{}; v := *p; p.a = 1; g = v.a }`, `v := *p`, ``}, def},
+		{normCase{"header read: captured by a closure kept", `var g func()
+func f(p *[]string, n int) { *p = (*p)[:n]; keys := *p; g = func() { keys[0] = "x" } }`, `keys := *p`, ``}, def},
+		// ruleJoinDefs (profile)
+		{normCase{"join defs", `func f(s string) int { a := len(s); b := 0; return a + b }`, `a, b := len(s), 0`, ``}, join},
+		{normCase{"join defs: off by default", `func f(s string) int { a := len(s); b := 1; return a + b }`, `b := 1`, `a, b :=`}, def},
+		{normCase{"join defs: second mentions first kept", `func f(s string) int { a := len(s); b := a; return a + b }`, ``, `a, b :=`}, join},
+		{normCase{"join defs: a call kept", `func h() int
+func f(s string) int { a := h(); b := 0; return a + b }`, `a := h() b := 0`, ``}, join},
+		{normCase{"join defs: both may panic kept", `func f(xs []int, p *int) int { a := xs[3]; b := *p; return a + b }`, `a := xs[3] b := *p`, ``}, join},
+		{normCase{"join defs: one may panic", `func f(xs []int) int { a := xs[3]; b := 0; return a + b }`, `a, b := xs[3], 0`, ``}, join},
+		// ruleIfNegation, profile notFirstBool
+		{normCase{"not-first", `var g int
+func f(matched bool) { if matched { g = 1 } else { g = 2 } }`, `if !matched { g = 2 } else { g = 1 }`, ``}, normProfilePegRuntime},
+		{normCase{"not-first keeps !c", `var g int
+func f(matched bool) { if !matched { g = 2 } else { g = 1 } }`, `if !matched { g = 2 } else { g = 1 }`, ``}, normProfilePegRuntime},
+		{normCase{"not-first: a call is not a variable", `var g int
+func h() bool
+func f() { if h() { g = 1 } else { g = 2 } }`, `if h() { g = 1 } else { g = 2 }`, ``}, normProfilePegRuntime},
+		{normCase{"peg runtime profile keeps && and the early return", `var g int
+func f(a, b bool) { if a { return }; if a && b { g = 1 } }`, `if a { return } if a && b { g = 1 }`, ``}, normProfilePegRuntime},
+		{normCase{"len < 1 under the peg runtime profile", `var g int
+func f(b []rune) { if len(b) < 1 || b[len(b)-1] != 0 { g = 1 } }`, `len(b) == 0 || b[len(b)-1] != 0`, `< 1`}, normProfilePegRuntime},
+		{normCase{"1 > len, len <= 0", `func f(b []rune) bool { return 1 > len(b) || len(b) <= 0 }`, `len(b) == 0 || len(b) == 0`, ``}, def},
+	}
+	for _, tc := range cases {
+		got := normTestRun(t, "x.go", "package p\n"+tc.src+"\n", tc.prof)
+		if tc.want != "" && !strings.Contains(got, tc.want) {
+			t.Errorf("%s: want %q in\n  %s", tc.name, tc.want, got)
+		}
+		if tc.not != "" && strings.Contains(got, tc.not) {
+			t.Errorf("%s: do not want %q in\n  %s", tc.name, tc.not, got)
+		}
+	}
+}
+
+func TestNormalizeSyntaxErrNames(t *testing.T) {
+	src := `package p
+type P struct{}
+type E struct { position int; near string }
+func (p *P) syntaxErr(pos int, buffer string) E {
+	offset := len(buffer)
+	count := 0
+	for i := range buffer {
+		if count != pos { count++; continue }
+		offset = i
+		break
+	}
+	return E{position: pos, near: buffer[offset:]}
+}
+`
+	got := normTestRun(t, "x.go", src, normProfile{joinDefs: true, keepIntShort: true, keepLenLocals: true})
+	for _, want := range []string{`byteOffset, runeCount := len(buffer), 0`, `for index := range buffer { if runeCount == pos { byteOffset = index break } runeCount++ }`, `near: buffer[byteOffset:]`} {
+		if !strings.Contains(got, want) {
+			t.Errorf("want %q in\n  %s", want, got)
+		}
+	}
+	// a name that is already taken is not stolen: the function keeps its own names
+	clash := strings.Replace(src, "pos int, buffer string", "pos int, buffer string, index int", 1)
+	got = normTestRun(t, "x.go", clash, normProfile{joinDefs: true, keepIntShort: true, keepLenLocals: true})
+	if !strings.Contains(got, "for i := range buffer") {
+		t.Errorf("clashing name: %s", got)
+	}
+}
